@@ -94,4 +94,214 @@ theorem decrypt_encrypt (kdf : Bytes → Bytes → Nat → Nat → Bytes) (hk : 
         simp only [List.take_append_drop]
   · simp [heven] at h
 
+/-! ## ShareSet.__init__: accepted sets are consistent -/
+
+theorem allSame_eq {α} [DecidableEq α] (f : Share → α) (l : List Share) (h : allSame f l = true) :
+    ∀ s ∈ l, ∀ t ∈ l, f s = f t := by
+  cases l with
+  | nil => intro s hs; simp at hs
+  | cons s0 r =>
+    simp only [allSame, List.all_eq_true, decide_eq_true_eq] at h
+    have key : ∀ s ∈ s0 :: r, f s = f s0 := by
+      intro s hs
+      simp only [List.mem_cons] at hs
+      rcases hs with rfl | hs
+      · rfl
+      · exact h s hs
+    intro s hs t ht
+    rw [key s hs, key t ht]
+
+theorem distinct_nodup {α} [DecidableEq α] : ∀ (l : List α), distinct l = true → l.Nodup := by
+  intro l
+  induction l with
+  | nil => intro _; exact List.nodup_nil
+  | cons a r ih =>
+    intro h
+    simp only [distinct, Bool.and_eq_true, Bool.not_eq_true', List.contains_eq_mem,
+      decide_eq_false_iff_not] at h
+    exact List.nodup_cons.mpr ⟨h.1, ih h.2⟩
+
+/-- what `ShareSet.__init__` guarantees about a set of two or more shares it accepts -/
+structure Consistent (shares : List Share) : Prop where
+  id : ∀ s ∈ shares, ∀ t ∈ shares, s.id = t.id
+  exponent : ∀ s ∈ shares, ∀ t ∈ shares, s.exponent = t.exponent
+  threshold : ∀ s ∈ shares, ∀ t ∈ shares, s.groupThreshold = t.groupThreshold
+  count : ∀ s ∈ shares, ∀ t ∈ shares, s.groupCount = t.groupCount
+  length : ∀ s ∈ shares, ∀ t ∈ shares, s.shareBitLength = t.shareBitLength
+  indices : (shares.map fun s => (s.groupIndex, s.memberIndex)).Nodup
+
+theorem new_some (shares ss : List Share) (h : ShareSet.new shares = some ss) :
+    ss = shares ∧ shares ≠ [] ∧ (1 < shares.length → Consistent shares) := by
+  unfold ShareSet.new at h
+  cases shares with
+  | nil => cases h
+  | cons s0 r =>
+    simp only at h
+    by_cases hl : (s0 :: r).length > 1
+    · rw [if_pos hl] at h
+      by_cases h1 : allSame (·.id) (s0 :: r) = true
+      · by_cases h2 : allSame (·.exponent) (s0 :: r) = true
+        · by_cases h3 : allSame (·.groupThreshold) (s0 :: r) = true
+          · by_cases h4 : allSame (·.groupCount) (s0 :: r) = true
+            · by_cases h5 : s0.groupThreshold > s0.groupCount
+              · simp [h1, h2, h3, h4, h5] at h
+              · by_cases h6 : allSame (·.shareBitLength) (s0 :: r) = true
+                · by_cases h7 : distinct ((s0 :: r).map fun s => (s.groupIndex, s.memberIndex)) = true
+                  · simp only [h1, h2, h3, h4, h5, h6, h7, Bool.not_true, Bool.false_eq_true, if_false,
+                      Option.some.injEq] at h
+                    exact ⟨h.symm, by simp, fun _ => ⟨allSame_eq _ _ h1, allSame_eq _ _ h2, allSame_eq _ _ h3,
+                      allSame_eq _ _ h4, allSame_eq _ _ h6, distinct_nodup _ h7⟩⟩
+                  · simp only [h1, h2, h3, h4, h5, h6, h7, Bool.not_true, Bool.false_eq_true, if_false,
+                      Bool.not_false, if_true, reduceCtorEq] at h
+                · simp [h1, h2, h3, h4, h5, h6] at h
+            · simp [h1, h2, h3, h4] at h
+          · simp [h1, h2, h3] at h
+        · simp [h1, h2] at h
+      · simp [h1] at h
+    · rw [if_neg hl] at h
+      simp only [Option.some.injEq] at h
+      exact ⟨h.symm, by simp, fun h2 => absurd h2 hl⟩
+
+/-! ## ShareSet.recover: fewer groups than the threshold are refused -/
+
+theorem countP_or_disjoint (shares : List Share) (i : Nat) (r : List Nat) (hi : i ∉ r) :
+    (shares.filter fun s => decide (s.groupIndex ∈ i :: r)).length
+      = (shares.filter fun s => decide (s.groupIndex = i)).length
+        + (shares.filter fun s => decide (s.groupIndex ∈ r)).length := by
+  induction shares with
+  | nil => rfl
+  | cons s l ih =>
+    rw [List.filter_cons, List.filter_cons, List.filter_cons]
+    by_cases h1 : s.groupIndex = i
+    · have h2 : s.groupIndex ∉ r := by rw [h1]; exact hi
+      have e1 : decide (s.groupIndex ∈ i :: r) = true := by simp [h1]
+      have e2 : decide (s.groupIndex = i) = true := by simp [h1]
+      have e3 : decide (s.groupIndex ∈ r) = false := by simp [h2]
+      rw [e1, e2, e3]
+      simp only [if_true, Bool.false_eq_true, if_false, List.length_cons]
+      rw [ih]; omega
+    · by_cases h2 : s.groupIndex ∈ r
+      · have e1 : decide (s.groupIndex ∈ i :: r) = true := by simp [h2]
+        have e2 : decide (s.groupIndex = i) = false := by simp [h1]
+        have e3 : decide (s.groupIndex ∈ r) = true := by simp [h2]
+        rw [e1, e2, e3]
+        simp only [if_true, Bool.false_eq_true, if_false, List.length_cons]
+        rw [ih]; omega
+      · have e1 : decide (s.groupIndex ∈ i :: r) = false := by simp [h1, h2]
+        have e2 : decide (s.groupIndex = i) = false := by simp [h1]
+        have e3 : decide (s.groupIndex ∈ r) = false := by simp [h2]
+        rw [e1, e2, e3]
+        simp only [Bool.false_eq_true, if_false]
+        exact ih
+
+theorem gatherGroups_length (hmac256 : Bytes → Bytes → Bytes) (shares : List Share) :
+    ∀ (is : List Nat), is.Nodup → ∀ l, gatherGroups hmac256 shares is = some l →
+      l.length ≤ (shares.filter fun s => decide (s.groupIndex ∈ is)).length := by
+  intro is
+  induction is with
+  | nil => intro _ l h; simp only [gatherGroups, Option.some.injEq] at h; rw [← h]; simp
+  | cons i r ih =>
+    intro hnd l h
+    have hi : i ∉ r := (List.nodup_cons.mp hnd).1
+    have hr : r.Nodup := (List.nodup_cons.mp hnd).2
+    rw [countP_or_disjoint shares i r hi]
+    rw [gatherGroups] at h
+    by_cases he : (shares.filter fun s => decide (s.groupIndex = i)).isEmpty = true
+    · rw [if_pos he] at h
+      have := ih hr l h
+      omega
+    · rw [if_neg he] at h
+      cases hg : groupEntry hmac256 i (shares.filter fun s => decide (s.groupIndex = i)) with
+      | none => rw [hg] at h; cases h
+      | some e =>
+        cases hrest : gatherGroups hmac256 shares r with
+        | none => rw [hg, hrest] at h; cases h
+        | some l' =>
+          rw [hg, hrest] at h
+          simp only [Option.some.injEq] at h
+          rw [← h]
+          have := ih hr l' hrest
+          have hpos : 0 < (shares.filter fun s => decide (s.groupIndex = i)).length := by
+            cases hf : shares.filter fun s => decide (s.groupIndex = i) with
+            | nil => rw [hf] at he; simp at he
+            | cons a b => simp
+          simp only [List.length_cons]
+          omega
+
+/-- fewer shares than the (common) group threshold `k ≥ 2`: `recover` raises -/
+theorem recover_too_few (hmac256 : Bytes → Bytes → Bytes) (kdf : Bytes → Bytes → Nat → Nat → Bytes)
+    (s0 : Share) (r : List Share) (pass : Bytes) (hk : s0.groupThreshold ≠ 1)
+    (hlen : (s0 :: r).length < s0.groupThreshold) :
+    ShareSet.recover hmac256 kdf (s0 :: r) pass = none := by
+  unfold ShareSet.recover
+  simp only
+  split
+  · rfl
+  · cases hg : gatherGroups hmac256 (s0 :: r) (List.range s0.groupCount) with
+    | none => rfl
+    | some sd =>
+      simp only
+      have h1 := gatherGroups_length hmac256 (s0 :: r) _ List.nodup_range sd hg
+      have h2 : ((s0 :: r).filter fun s => decide (s.groupIndex ∈ List.range s0.groupCount)).length
+          ≤ (s0 :: r).length := List.length_filter_le _ _
+      have hk' : (s0.groupThreshold == 1) = false := by simpa using hk
+      rw [hk']
+      simp only [Bool.false_eq_true, if_false]
+      rw [if_pos (by omega)]
+
+theorem mapM?_length {α β} (f : α → Option β) : ∀ (l : List α) (l' : List β),
+    mapM? f l = some l' → l'.length = l.length := by
+  intro l
+  induction l with
+  | nil => intro l' h; simp only [mapM?, Option.some.injEq] at h; rw [← h]; rfl
+  | cons a r ih =>
+    intro l' h
+    rw [mapM?] at h
+    cases ha : f a with
+    | none => rw [ha] at h; cases h
+    | some b =>
+      cases hr : mapM? f r with
+      | none => rw [ha, hr] at h; cases h
+      | some bs =>
+        rw [ha, hr] at h
+        simp only [Option.some.injEq] at h
+        rw [← h]; simp [ih bs hr]
+
+/-- `recover_mnemonic` on fewer share mnemonics than the threshold `k ≥ 2` they carry: REJECT -/
+theorem recoverMnemonic_too_few (sha256 : Bytes → Bytes) (hmac256 : Bytes → Bytes → Bytes)
+    (kdf : Bytes → Bytes → Nat → Nat → Bytes) (bip39 slip39 : WordList) (ms : List PyStr) (pass : Bytes)
+    (s0 : Share) (r : List Share) (hp : mapM? (Share.parse slip39) ms = some (s0 :: r))
+    (hk : s0.groupThreshold ≠ 1) (hlen : ms.length < s0.groupThreshold) :
+    recoverMnemonic sha256 hmac256 kdf bip39 slip39 ms pass = none := by
+  unfold recoverMnemonic
+  rw [hp]
+  simp only
+  cases hn : ShareSet.new (s0 :: r) with
+  | none => rfl
+  | some ss =>
+    obtain ⟨hss, _, _⟩ := new_some _ _ hn
+    subst hss
+    simp only
+    have := mapM?_length _ _ _ hp
+    rw [recover_too_few hmac256 kdf s0 r pass hk (by rw [this]; exact hlen)]
+
+/-- whatever `recover_mnemonic` accepts was a consistent set: same id, exponent, threshold, count, length,
+    distinct (group, member) indices -/
+theorem recoverMnemonic_consistent (sha256 : Bytes → Bytes) (hmac256 : Bytes → Bytes → Bytes)
+    (kdf : Bytes → Bytes → Nat → Nat → Bytes) (bip39 slip39 : WordList) (ms : List PyStr) (pass : Bytes)
+    (m : PyStr) (h : recoverMnemonic sha256 hmac256 kdf bip39 slip39 ms pass = some m) :
+    ∃ shares, mapM? (Share.parse slip39) ms = some shares ∧ shares ≠ [] ∧
+      (1 < shares.length → Consistent shares) := by
+  unfold recoverMnemonic at h
+  cases hp : mapM? (Share.parse slip39) ms with
+  | none => rw [hp] at h; cases h
+  | some shares =>
+    rw [hp] at h
+    simp only at h
+    cases hn : ShareSet.new shares with
+    | none => rw [hn] at h; cases h
+    | some ss =>
+      obtain ⟨_, h2, h3⟩ := new_some _ _ hn
+      exact ⟨shares, rfl, h2, h3⟩
+
 end Buidl.Shamir
